@@ -563,13 +563,23 @@ MANIFEST = {
         "infers the variant the source implements. Not proved / outside: 'the original is unchanged' is trivial in a functional "
         "model and is checked on the real object (deep snapshot); two symbols with DIFFERENT assumptions sent to one fresh name "
         "stay two symbols (theorem fresh_merge_with_different_assumptions_does_not_couple; reported as finding F1 in "
-        "notes/findings_C17.md) — the coupling clause is stated with that precondition. Tie: every run converts 7 corpus "
-        "models (5 qrules reactions: helicity and canonical formalism, stable final-state ids, Breit-Wigner dynamics with and "
-        "without form factors, helicity couplings) and 40 (quick) / 500 (thorough) random small HelicityModels to the line "
-        "protocol, applies sequences of 1-3 seeded rename maps of 20 kinds (injective, merging onto existing/fresh names, "
-        "chains, swaps, kinematic variables, four-momenta, empty, unknown, self, duplicate pairs, all parameters, ...) and "
-        "compares rename_symbols with the Lean model attribute by attribute, key order included, plus the collected symbol "
-        "set, C01 flags and the natural_sorting keys of all names."
+        "notes/findings_C17.md) — the coupling clause is stated with that precondition. Tie: every run converts 11 corpus "
+        "models (5 qrules reactions: helicity and canonical formalism, stable final-state ids, scalar initial-state mass, "
+        "Breit-Wigner dynamics with and without form factors, helicity couplings, and ALIGNED models — axis-angle and "
+        "Dalitz-plot decomposition, the latter with stable ids so that the zeta-angle definitions contain mass parameters and "
+        "the intensity contains Wigner functions of kinematic variables) and 32 (quick) / 500 (thorough) random small "
+        "HelicityModels (builder-style names with backslashes, braces, commas, blanks; parameters inside kinematic-variable "
+        "definitions and inside the intensity; int/float/complex/-0.0/1e-300/10**20 defaults) to the line protocol, applies "
+        "histories of 1-4 seeded rename maps of 20 kinds (injective, merging onto existing/fresh names, chains, swaps, "
+        "kinematic variables, four-momenta, empty, unknown, self, duplicate pairs, all parameters, rename-then-rename-back, ...) "
+        "and compares rename_symbols with the Lean model attribute by attribute, key order included, plus the collected symbol "
+        "set, C01 flags and the natural_sorting keys of all names. The oracle evaluates on every step: attributes = original "
+        "with the specified map, assumptions, C01, unknown names, coupling, the numeric substitution clause (four-momenta -> "
+        "kinematic variables -> expression, 1e-12, re-checked in 40 digits; for merging maps only on values that satisfy the "
+        "symbols' assumptions), round trips (field types, reaction_info, ParameterValues lookup by symbol/name/index, "
+        "iteration, assignment, pickling, rename-back = identity), every model of every history unchanged at the end of the "
+        "run, and a hash-seed sweep (3/6 fresh processes with different PYTHONHASHSEED, >= 2 distinct set iteration orders "
+        "observed, identical results required)."
     ),
     "level_note": (
         "Trusted: Lean kernel (axioms propext, Classical.choice, Quot.sound); the SymPy<->S-expression converter "
